@@ -113,15 +113,31 @@ def _is_set_expr(e, setf, local_sets):
     return False
 
 
+def _integral(e) -> bool:
+    """the accumulated term is an integer by construction (an int literal, a len()): integer addition is associative"""
+    if isinstance(e, ast.Constant) and isinstance(e.value, int) and not isinstance(e.value, bool):
+        return True
+    if isinstance(e, ast.Call) and isinstance(e.func, ast.Name) and e.func.id == 'len':
+        return True
+    if isinstance(e, ast.BinOp) and isinstance(e.op, (ast.Add, ast.Mult, ast.Sub)):
+        return _integral(e.left) and _integral(e.right)
+    return False
+
+
 def _commutative_body(loop: ast.For) -> bool:
-    """every statement of the body is `acc += f(x)` / `acc *= ..` on a plain name, or set.add"""
+    """every statement of the body is `acc += <integer>` on a plain name, or set.add / set.discard.
+    A sum or product of other terms is NOT accepted: float addition is not associative, so the result depends on the
+    iteration order of the set (WFQ's weight sum over string class ids differed by one ulp between hash seeds)."""
     for s in loop.body:
-        if isinstance(s, ast.AugAssign) and isinstance(s.op, (ast.Add, ast.Mult)) and isinstance(s.target, ast.Name):
+        if isinstance(s, ast.AugAssign) and isinstance(s.op, (ast.Add, ast.Mult)) and isinstance(s.target, ast.Name) \
+                and _integral(s.value):
             continue
         if isinstance(s, ast.Assign) and len(s.targets) == 1 and isinstance(s.targets[0], ast.Name) \
-                and isinstance(s.value, ast.BinOp) and isinstance(s.value.op, (ast.Add, ast.Mult)) and any(
-                    isinstance(o, ast.Name) and o.id == s.targets[0].id for o in (s.value.left, s.value.right)):
-            continue
+                and isinstance(s.value, ast.BinOp) and isinstance(s.value.op, (ast.Add, ast.Mult)):
+            l, r = s.value.left, s.value.right
+            me = s.targets[0].id
+            if (isinstance(l, ast.Name) and l.id == me and _integral(r)) or (isinstance(r, ast.Name) and r.id == me and _integral(l)):
+                continue
         if isinstance(s, ast.Expr) and isinstance(s.value, ast.Call) and isinstance(s.value.func, ast.Attribute) \
                 and s.value.func.attr in ('add', 'discard'):
             continue
